@@ -36,7 +36,8 @@ RULE = ("one unit = one writer configuration (FileAccessor flat/deep x gzip "
         "as payloads, payloads beyond 1 MiB and 2 MiB. URL family: 6 directory names (spaces, non-ASCII, %, +, nested) x "
         "6 spellings (path, file:// fully quoted, file:// with a literal '+', "
         "file://localhost, precomputed://file://, precomputed://path) for "
-        "the writer x 6 for the reader. Confinement: 14 name spellings x {store, fetch, exists} x "
+        "the writer x 6 for the reader. Factory sequences: every ordered pair of 7 "
+        "option dictionaries given to two get_accessor_for_url() calls. Confinement: 14 name spellings x {store, fetch, exists} x "
         "both accessor classes with a sentinel sibling directory. "
         "Non-trivial states: >= 2 names present or a name overwritten.")
 ASSUMPTIONS = [
@@ -598,6 +599,64 @@ def names_family(cfg, col):
     col.ev(runs, runs, "names-ok" if not bad else "names-violating")
 
 
+FACTORY_OPTS = [{}, {"flat": True}, {"gzip": False},
+                {"flat": True, "gzip": False, "compresslevel": 1},
+                {"gzip": True, "compresslevel": 1}, {"flat": False},
+                {"compresslevel": 0}]
+
+
+def _eval_factory_sequences(col):
+    """get_accessor_for_url() called twice in one process with two option
+    dictionaries (every ordered pair of 7): the second accessor stores
+    where ITS options say (missing keys = documented defaults: deep layout,
+    gzip on), whatever the first call was given"""
+    from neuroglancer_scripts import accessor
+    root = sandbox.fresh_dir("c12f")
+    try:
+        n = 0
+        for oa in FACTORY_OPTS:
+            for ob in FACTORY_OPTS:
+                n += 1
+                da = os.path.join(root, "a%d" % n)
+                db = os.path.join(root, "b%d" % n)
+                os.makedirs(da)
+                os.makedirs(db)
+                case = {"kind": "factory-sequence", "first_options": oa,
+                        "second_options": ob}
+                try:
+                    a = accessor.get_accessor_for_url(da, dict(oa))
+                    a.store_chunk(b"AAAA", KEY, CHUNKS[0])
+                    b = accessor.get_accessor_for_url(db, dict(ob))
+                    b.store_chunk(b"BBBB", KEY, CHUNKS[0])
+                    b.store_file("d/f", b"FILE")
+                except Exception as exc:
+                    col.ev(1, 1, "factory-bad")
+                    col.violation("C12/factory-sequence/exception/"
+                                  + type(exc).__name__, case, "stored",
+                                  repr(exc)[:200])
+                    continue
+                eff = {"cls": "file", "flat": ob.get("flat", False),
+                       "gzip": ob.get("gzip", True)}
+                want = sorted([
+                    expected_path(eff, ("chunk",) + CHUNKS[0],
+                                  "application/octet-stream"),
+                    expected_path(eff, "d/f", "application/octet-stream")])
+                have = sorted(os.path.relpath(os.path.join(r, f), db)
+                              for r, _, fs in os.walk(db) for f in fs)
+                if have != want:
+                    col.ev(1, 1, "factory-bad")
+                    col.violation("C12/factory-sequence/second-accessor-"
+                                  "uses-other-options", case, want, have)
+                else:
+                    col.ev(1, 1, "factory-ok")
+                sandbox.rm(da)
+                sandbox.rm(db)
+        col.sample({"kind": "factory-sequence",
+                    "first_options": {"flat": True}, "second_options": {}})
+    finally:
+        sandbox.rm(root)
+
+
 DATASET_DIRS = ["plain", "my data", "\u00fc-dir", "100%", "a+b", "x y/z"]
 
 
@@ -703,6 +762,7 @@ def units(tier):
         u.append({"kind": "contents", "config": cfg})
     u.append({"kind": "confinement"})
     u.append({"kind": "urls"})
+    u.append({"kind": "factory-sequences"})
     return u
 
 
@@ -718,7 +778,9 @@ def space(tier):
 
 def run_unit(u):
     col = Collector()
-    if u["kind"] == "urls":
+    if u["kind"] == "factory-sequences":
+        _eval_factory_sequences(col)
+    elif u["kind"] == "urls":
         _eval_urls(col)
     elif u["kind"] == "contents":
         contents_family(u["config"], col)
@@ -746,6 +808,12 @@ def run_unit(u):
 
 def replay(case):
     col = Collector()
+    if case.get("kind") == "factory-sequence":
+        _eval_factory_sequences(col)
+        return [r for r in col.records()
+                if r["case"].get("first_options") == case["first_options"]
+                and r["case"].get("second_options")
+                == case["second_options"]]
     if case.get("kind") == "urls":
         _eval_urls(col)
         return [r for r in col.records()
